@@ -384,7 +384,7 @@ fn run(ctx: &mut Ctx) {
     let so = ser_only();
     let cfgs = SerCfg::all();
     let mut r = ctx.rng(15);
-    let per_type = ctx.scaled(t.pick(12_000, 150_000)) / ctx.nshards as u64 + 1;
+    let per_type = ctx.scaled(t.pick(12_000, 1_500_000)) / ctx.nshards as u64 + 1;
     let mut do_case = |ctx: &mut Ctx, loc: &mut Local, name: &'static str, is_fam: bool, gen: fn(&mut Rng) -> Box<dyn Val>, vseed: u64, cfg: &SerCfg, ci: usize| -> bool {
         let case = json!({"type": name, "family": is_fam, "value_seed": vseed, "cfg": cfg.to_json()});
         ctx.journal(|| case.clone());
